@@ -174,6 +174,8 @@ package arvados
 // Creating directory entries does not touch the block list being parsed.
 //@ func dirnode.createFileAndParents trusted
 //@   modifies except(mem:storedSegment mem:string)
+//@ func manifestUnescape trusted
+//@   modifies nothing
 //@ func filenode.appendSegment trusted
 //@   modifies filenode.segments filenode.fileinfo mem:segment
 
